@@ -566,7 +566,7 @@ class FunctionFactory(CloningFactory[Function.Element]):
                 "min",
                 "Minimum",
                 function_type,
-                min,  # because is variadiac, whereas np.min takes arrays as args
+                np.minimum,  # elementwise on scalars and arrays (np.min reduces a single array)
                 arity=2,
                 precedence=p(0),
             ),
@@ -574,7 +574,7 @@ class FunctionFactory(CloningFactory[Function.Element]):
                 "max",
                 "Maximum",
                 function_type,
-                max,  # because is variadiac, whereas np.max takes arrays as args
+                np.maximum,  # elementwise on scalars and arrays (np.max reduces a single array)
                 arity=2,
                 precedence=p(0),
             ),
